@@ -68,6 +68,7 @@ func (fr *Frame) instr(st *State, in ssa.Instruction) bool {
 			}
 		}
 		x.zeroInit(st, in.Type().Underlying().(*types.Pointer).Elem(), fr.env[in])
+		x.unlockedInit(st, in.Type().Underlying().(*types.Pointer).Elem(), fr.env[in], 0)
 	case *ssa.BinOp:
 		def(in, fr.binop(st, in.Op, in.X.Type(), in.Y.Type(), fr.val(in.X), fr.val(in.Y), in.Pos()))
 	case *ssa.UnOp:
@@ -715,6 +716,16 @@ func (fr *Frame) selectStmt(st *State, in *ssa.Select) {
 		c.assume(implies(st.Reach, and(sx("bvsle", c.intLit(lo, ii), vals[0]), sx("bvslt", vals[0], c.intLit(int64(len(in.States)), ii)))))
 	}
 	fr.tup[in] = vals
+	ls := &selInfo{idx: vals[0]}
+	for i, s := range in.States {
+		ls.chans = append(ls.chans, fr.val(s.Chan))
+		if c.Int {
+			ls.lits = append(ls.lits, intLit(int64(i)))
+		} else {
+			ls.lits = append(ls.lits, c.intLit(int64(i), ii))
+		}
+	}
+	x.lastSel = ls
 	// a send offered by the select is an effect like a call: "callsite select-send:<channel> name: cond" clauses of the
 	// function under verification are checked where the send is offered ($0 is the value offered)
 	for _, s := range in.States {
